@@ -13,6 +13,7 @@
 #include <algorithm>
 #include <cstring>
 #include <map>
+#include <cerrno>
 #include "../../bindings/bind.h"
 #include "../../sim/core.h"
 #include "../../sim/cov.h"
@@ -637,6 +638,14 @@ static Obj *obj(int id) {
     return it == W->obj_index.end() ? nullptr : &W->objs[it->second];
 }
 
+// errno is the caller's: whatever a library function does may not depend on the stale value it finds there (a function of the plan,
+// so that both executions of a plan see the same values)
+static int stale_errno(const Call &c) {
+    static const int vals[] = {0, 0, EINVAL, EMSGSIZE, ERANGE, EOVERFLOW, ENOMEM, EAGAIN, EINTR, ENOBUFS, E2BIG, EDOM};
+    uint64_t h = sim::mix64((uint64_t)c.task * 0x9E3779B97F4A7C15ULL ^ c.v ^ (c.a << 8) ^ (c.b << 20) ^ (uint64_t)c.obj, c.fn.size() + c.field.size());
+    return vals[h % (sizeof vals / sizeof vals[0])];
+}
+
 // executes one call on behalf of the running task; returns its result (or a digest of its outputs)
 static uint64_t do_call(const Call &c, bool &skipped) {
     World &w = *W;
@@ -647,6 +656,7 @@ static uint64_t do_call(const Call &c, bool &skipped) {
         if (xt >= 0) { w.in_shared_call[xt] = false; w.in_call[xt] = 1; w.call_steps[xt & 7] = 0; snprintf(w.cur_fn, sizeof w.cur_fn, "%s", bind_extras[c.a].name); }
         w.calls++;
         w.pr_extra++;
+        errno = stale_errno(c);
         uint64_t xr = bind_extras[c.a].fn(c.b, c.c, c.d, 0);
         if (xt >= 0) w.in_call[xt] = 0;
         return xr;
@@ -656,7 +666,7 @@ static uint64_t do_call(const Call &c, bool &skipped) {
     uint64_t res = 0;
     int tid = w.tasks.cur() ? w.tasks.cur()->id : -1;  // -1: set-up phase (main context, not monitored)
     if (tid >= 0) w.in_shared_call[tid] = o->shared;
-    auto enter = [&] { if (tid >= 0) { w.in_call[tid] = 1; w.call_steps[tid & 7] = 0; snprintf(w.cur_fn, sizeof w.cur_fn, "%s%s%s", c.fn.c_str(), c.fmt.empty() ? "" : ".", c.fmt.c_str()); } w.calls++; };
+    auto enter = [&] { errno = stale_errno(c); if (tid >= 0) { w.in_call[tid] = 1; w.call_steps[tid & 7] = 0; snprintf(w.cur_fn, sizeof w.cur_fn, "%s%s%s", c.fn.c_str(), c.fmt.empty() ? "" : ".", c.fmt.c_str()); } w.calls++; };
     auto leave = [&] { if (tid >= 0) w.in_call[tid] = 0; };
     // callers never hand a shared (read-only) object to a function that writes its argument
     if (tid >= 0 && o->shared && c.fn != "get" && c.fn != "vss_decode" && c.fn != "vss_pathlen" && c.fn != "can_paylen" && c.fn != "can_payoff") { skipped = true; return 0; }
